@@ -55,6 +55,7 @@ CONDITIONS = {
     "randao: domain": (P0, ["randao-wrong-domain-type"]),
     # process_attestation
     "attestation: target.epoch == epoch(slot)": (P0, ["attestation-target-epoch-mismatch"]),
+    "attestation: target.epoch in (previous_epoch, current_epoch), lower side": (P0, ["attestation-target-before-previous-epoch"]),
     "attestation: slot + MIN_ATTESTATION_INCLUSION_DELAY <= state.slot": (P0, ["attestation-too-new"]),
     "attestation: state.slot <= slot + SLOTS_PER_EPOCH (target epoch window from deneb)": (P0, ["attestation-too-old"]),
     "attestation: index < committee count": (P0, ["attestation-committee-index-eq-count"]),
@@ -77,6 +78,7 @@ CONDITIONS = {
     # process_proposer_slashing
     "proposer slashing: header slots equal": (P0, ["proposer-slashing-different-slots"]),
     "proposer slashing: proposers equal": (P0, ["proposer-slashing-different-proposers"]),
+    "proposer slashing: proposer index in the registry": (P0, ["proposer-slashing-index-out-of-range"]),
     "proposer slashing: headers differ": (P0, ["proposer-slashing-same-header"]),
     "proposer slashing: is_slashable_validator (activation boundary)": (P0, ["pslash-activation-next", "pslash-activation-now-control"]),
     "proposer slashing: is_slashable_validator (withdrawable boundary)": (P0, ["pslash-withdrawable-now", "pslash-withdrawable-next-control"]),
@@ -117,16 +119,22 @@ CONDITIONS = {
     "sync aggregate: signed root": (ALT, ["sync-aggregate-wrong-root"]),
     "sync aggregate: signature by exactly the participants": (ALT, ["sync-aggregate-extra-bit", "sync-aggregate-bit-cleared",
                                                                    "sync-aggregate-garbage-signature", "sync-aggregate-infinity-with-bits"]),
+    "sync aggregate: bits are a Bitvector[SYNC_COMMITTEE_SIZE]": (ALT, ["sync-aggregate-bits-too-long", "sync-aggregate-bits-too-short"]),
     # bellatrix+: process_execution_payload
     "payload: parent_hash": (BEL, ["payload-wrong-parent-hash"]),
     "payload: prev_randao": (BEL, ["payload-wrong-prev-randao"]),
     "payload: timestamp": (BEL, ["payload-wrong-timestamp"]),
+    "payload: engine verdict on the block hash": (BEL, ["payload-engine-invalid-block-hash"]),
+    "payload: engine verdict on the payload": (BEL, ["payload-engine-invalid-payload"]),
+    "payload: engine failure is not acceptance": (BEL, ["payload-engine-error"]),
+    "payload: engine verdict on the blob versioned hashes": (DEN, ["payload-engine-invalid-versioned-hashes"]),
     # capella+: process_withdrawals, process_bls_to_execution_change
     "withdrawals == expected (count)": (CAP, ["withdrawals-dropped-last", "withdrawals-extra", "wrong-withdrawals"]),
     "withdrawals == expected (index / validator / address / amount)": (CAP, ["withdrawals-index-shifted", "withdrawals-other-validator",
                                                                             "withdrawals-other-address", "withdrawals-amount-plus-one"]),
     "bls change: validator index in range": (CAP, ["bls-change-index-out-of-range"]),
     "bls change: credentials hash of the key": (CAP, ["bls-change-pubkey-hash-mismatch"]),
+    "bls change: credentials prefix is BLS_WITHDRAWAL_PREFIX": (CAP, ["bls-change-credentials-not-bls-prefix"]),
     "bls change: signature key / domain": (CAP, ["bls-change-wrong-key", "bls-change-fork-dependent-domain"]),
     # deneb
     "blob commitments <= MAX_BLOBS_PER_BLOCK": (DEN, ["too-many-blobs"]),
@@ -340,6 +348,22 @@ MUTANTS = {
                                              "expectedInputCount := uint64(0)\n\tif eth1Data.DepositCount > depIndex {\n\t\texpectedInputCount = uint64(eth1Data.DepositCount - depIndex)\n\t}"),
     "process_slots_guard_relaxed": ("eth2/beacon/common/transition.go",
                                     "if currentSlot >= slot {", "if currentSlot > slot {"),
+    # coverage round: branches that no variant reached before (list limits, engine verdicts, credential prefix)
+    "deneb_versioned_hashes_verdict_ignored": ("eth2/beacon/deneb/execution.go",
+                                               "return false, fmt.Errorf(\"failed to check blob versioned hashes: %w\", err)\n\t} else if !ok {\n\t\treturn false, nil\n\t}",
+                                               "return false, fmt.Errorf(\"failed to check blob versioned hashes: %w\", err)\n\t} else if !ok {\n\t\t_ = ok\n\t}"),
+    "capella_engine_invalid_accepted": ("eth2/beacon/capella/execution_payload.go", "} else if !valid {", "} else if false && !valid {"),
+    "bls_change_prefix_not_checked": ("eth2/beacon/capella/bls_to_execution.go",
+                                      "if !bytes.Equal(validatorWithdrawalCredentials[:1], []byte{common.BLS_WITHDRAWAL_PREFIX}) {",
+                                      "if false && !bytes.Equal(validatorWithdrawalCredentials[:1], []byte{common.BLS_WITHDRAWAL_PREFIX}) {"),
+    "bellatrix_exit_limit_not_checked": ("eth2/beacon/bellatrix/block.go",
+                                         "if x := uint64(len(b.VoluntaryExits)); x > uint64(spec.MAX_VOLUNTARY_EXITS) {",
+                                         "if x := uint64(len(b.VoluntaryExits)); false && x > uint64(spec.MAX_VOLUNTARY_EXITS) {"),
+    "deneb_transaction_limit_off_by_one": ("eth2/beacon/deneb/block.go",
+                                           "x > uint64(spec.MAX_TRANSACTIONS_PER_PAYLOAD) {", "x > uint64(spec.MAX_TRANSACTIONS_PER_PAYLOAD)+1 {"),
+    "sync_bits_length_not_checked": ("eth2/beacon/altair/sync_aggregate.go",
+                                     "if err := bitfields.BitvectorCheck(agg.SyncCommitteeBits, uint64(spec.SYNC_COMMITTEE_SIZE)); err != nil {",
+                                     "if err := bitfields.BitvectorCheck(agg.SyncCommitteeBits, uint64(spec.SYNC_COMMITTEE_SIZE)); false && err != nil {"),
     "attester_slashing_reason_not_checked": ("eth2/beacon/phase0/attester_slashing.go",
                                              "if !IsSlashableAttestationData(&sa1.Data, &sa2.Data) {",
                                              "if false && !IsSlashableAttestationData(&sa1.Data, &sa2.Data) {"),
